@@ -4,6 +4,7 @@ breaks (quick tier unless given), undo it straight afterwards, and print a table
 usage: run_seeded.py [name ...] [--tier thorough] [--checks C01,C02]"""
 import json, os, subprocess, sys
 args = [a for a in sys.argv[1:] if not a.startswith("--")]
+
 tier = "quick"
 checks_override = None
 for i, a in enumerate(sys.argv):
@@ -11,6 +12,8 @@ for i, a in enumerate(sys.argv):
         tier = sys.argv[i + 1]; args = [x for x in args if x != tier]
     if a == "--checks":
         checks_override = sys.argv[i + 1].split(","); args = [x for x in args if x != sys.argv[i + 1]]
+scratch = "--scratch" in sys.argv  # use a scratch copy of /repo/src (VOTEKIT_SRC) instead of patching /repo: needed while
+                                  # background runs use /repo itself
 root = "/verif/seeded"
 names = args or sorted(os.listdir(root))
 for name in names:
@@ -19,13 +22,21 @@ for name in names:
         continue
     meta = json.load(open(os.path.join(d, "meta.json")))
     checks = checks_override or [meta["property"]] + meta.get("also_run", [])
-    assert subprocess.run(["git", "-C", "/repo", "status", "--porcelain", "--untracked-files=no"], capture_output=True, text=True).stdout.strip() == "", "/repo not clean"
-    r = subprocess.run(["git", "-C", "/repo", "apply", os.path.join(d, "patch.diff")], capture_output=True, text=True)
+    env = dict(os.environ)
+    if scratch:
+        import shutil, tempfile
+        sd = tempfile.mkdtemp(prefix="seeded_", dir="/var/tmp")
+        subprocess.run(["git", "-C", "/repo", "worktree", "add", "-q", "--detach", sd + "/wt", "HEAD"], check=True)
+        r = subprocess.run(["git", "-C", sd + "/wt", "apply", os.path.join(d, "patch.diff")], capture_output=True, text=True)
+        env["VOTEKIT_SRC"] = sd + "/wt/src"
+    else:
+        assert subprocess.run(["git", "-C", "/repo", "status", "--porcelain", "--untracked-files=no"], capture_output=True, text=True).stdout.strip() == "", "/repo not clean"
+        r = subprocess.run(["git", "-C", "/repo", "apply", os.path.join(d, "patch.diff")], capture_output=True, text=True)
     if r.returncode != 0:
         print(name, "PATCH DOES NOT APPLY", r.stderr[:200]); continue
     try:
         for c in checks:
-            r = subprocess.run(["/verif/check", c, tier], capture_output=True, text=True)
+            r = subprocess.run(["/verif/check", c, tier], capture_output=True, text=True, env=env)
             lines = r.stdout.splitlines()
             what = [l.strip() for l in lines if l.strip().startswith("what:")]
             print(f"{name:28s} {c} {tier}: exit={r.returncode} violations={sum(1 for l in lines if l.startswith('VIOLATION'))}", flush=True)
@@ -35,4 +46,8 @@ for name in names:
                 for l in lines[-6:]:
                     print("      |", l[:230])
     finally:
-        subprocess.run(["git", "-C", "/repo", "checkout", "--", "."], check=True)
+        if scratch:
+            subprocess.run(["git", "-C", "/repo", "worktree", "remove", "--force", sd + "/wt"])
+            shutil.rmtree(sd, ignore_errors=True)
+        else:
+            subprocess.run(["git", "-C", "/repo", "checkout", "--", "."], check=True)
